@@ -502,6 +502,8 @@ func (p *prog) step(idx int, toks []string) *rec {
 			r.fields["shape"] = showInts(sh)
 		}
 		return r
+	case "bin":
+		return p.stepBin(toks)
 	case "atbox":
 		t, dt := p.get(toks[1])
 		if t == nil || len(toks) != 4 {
